@@ -37,6 +37,7 @@ inductive Ev
   | sd (sc : Nat)                       -- SubConn.Shutdown()
   | newSc (sc : Nat) (owner : Nat)      -- cc.NewSubConn
   | nscErr (id : Nat)                   -- NewSubConn refused (caller is deleted)
+  | nscHeld (sc : Nat) (id : Nat)       -- cc.NewSubConn called for child id; the call is still inside the parent
   | ucc (id : Nat)                      -- child.UpdateClientConnState
   | resErr (id : Nat)                   -- child.ResolverError
   | exitIdle (id : Nat)                 -- child.ExitIdle
@@ -57,6 +58,8 @@ structure St where
   pkSerial : Nat := 0      -- pickers created by children so far
   /-- owner of every SubConn ever created (cc-level) -/
   scOwner : List (Nat × Nat) := []
+  /-- NewSubConn calls that passed the first check and are still inside the parent ClientConn: (SubConn, child) -/
+  inflight : List (Nat × Nat) := []
   /-- last state given to the channel (ghost: with its owner) -/
   pushed : Option (Nat × BState) := none
 deriving Repr
@@ -78,6 +81,8 @@ inductive Op
   | close
   | st (child : Nat) (s : ConnState)       -- child calls UpdateState
   | nsc (child : Nat)                      -- child calls NewSubConn
+  | nscb (child : Nat)                     -- child calls NewSubConn from its own goroutine; the parent holds the call
+  | nsce (sc : Nat)                        -- the parent lets that call return
   | scst (sc : Nat) (s : ConnState)        -- the channel reports a SubConn state (StateListener)
   | uscs (sc : Nat) (s : ConnState)        -- gsb.UpdateSubConnState (deprecated)
   | scsd (sc : Nat)                        -- child calls sc.Shutdown() itself
@@ -147,6 +152,25 @@ def newSubConn (s : St) (id : Nat) : St × List Ev :=
     ({ s with scSerial := sc, scOwner := s.scOwner ++ [(sc, id)],
               current := s.current.map (addSc · id sc), pending := s.pending.map (addSc · id sc) },
      [.newSc sc id])
+
+/-- `balancerWrapper.NewSubConn` up to and including `bw.gsb.cc.NewSubConn(addrs, opts)`: the first
+    `balancerCurrentOrPending` check, then the call into the parent (gsb.mu is not held) -/
+def nscBegin (s : St) (id : Nat) : St × List Ev :=
+  if !curOrPend s id then (s, [.nscErr id])
+  else
+    let sc := s.scSerial + 1
+    ({ s with scSerial := sc, scOwner := s.scOwner ++ [(sc, id)], inflight := s.inflight ++ [(sc, id)] }, [.nscHeld sc id])
+
+/-- … and after it: `if !balancerCurrentOrPending(bw) { sc.Shutdown(); return error }` ("balancer was
+    closed during this call"), else `bw.subconns[sc] = true` -/
+def nscEnd (s : St) (sc : Nat) : St × List Ev :=
+  match s.inflight.find? (·.1 = sc) with
+  | none => (s, [])
+  | some (_, id) =>
+    let s1 : St := { s with inflight := s.inflight.filter (·.1 ≠ sc) }
+    if curOrPend s1 id then
+      ({ s1 with current := s1.current.map (addSc · id sc), pending := s1.pending.map (addSc · id sc) }, [.newSc sc id])
+    else (s1, [.sd sc, .nscErr id])
 
 def runScript (s : St) (id : Nat) : Script → St × List Ev
   | .st x => updateState s id x
@@ -230,6 +254,8 @@ def step (s : St) : Op → St × List Ev × Res
      closeBW s.current ++ closeBW s.pending, .ok)
   | .st child x => let (s', ev) := updateState s child x; (s', ev, .ok)
   | .nsc child => let (s', ev) := newSubConn s child; (s', ev, .ok)
+  | .nscb child => let (s', ev) := nscBegin s child; (s', ev, .ok)
+  | .nsce sc => let (s', ev) := nscEnd s sc; (s', ev, .ok)
   | .scst sc x => let (s', ev) := subConnState s sc x true; (s', ev, .ok)
   | .uscs sc x => let (s', ev) := subConnState s sc x false; (s', ev, .ok)
   | .scsd sc => (s, [.sd sc], .ok)
@@ -273,6 +299,16 @@ def pushesFromCurrent (s' : St) (evs : List Ev) : Bool :=
 def retiredClosed (s s' : St) (evs : List Ev) : Bool :=
   (s.current.toList ++ s.pending.toList).all fun w =>
     curOrPend s' w.id || (evs.contains (.closeChild w.id) && w.subconns.all fun sc => evs.contains (.sd sc))
+
+/-- a NewSubConn call that was inside the parent ClientConn while its policy was closed or superseded
+    must not leave a SubConn behind: when it returns, the SubConn is shut down and the policy gets an
+    error (it is registered with the policy only if the policy still has a role) -/
+def lateSubConnOk (s : St) (sc : Nat) (evs : List Ev) : Bool :=
+  match s.inflight.find? (·.1 = sc) with
+  | none => true
+  | some (_, id) =>
+    if curOrPend s id then evs == [.newSc sc id]
+    else evs.contains (.sd sc) && !(evs.any fun e => match e with | .newSc _ _ => true | _ => false)
 
 /-- the channel always has the latest state of the policy in use (in particular while a switch is
     pending: RPCs keep using the old policy's picker); a policy that never reported has nothing to show -/
